@@ -96,7 +96,7 @@ fn cache_slice(cache: &FxCache, keys: &[(String, i32, u32)]) -> String {
 
 pub fn run(ctx: &mut Ctx) {
     let prop = "C08";
-    ctx.ev.rule = "part 1 (conversion): generated single-security ledgers with price and fees/tax in independently chosen currencies (GBP, USD, EUR, JPY, CHF, AUD, occasionally XTS, which has no rates, or any other ISO code the currency type knows, with or without bundled rates), months from 2015-01 to the last bundled month and beyond (a quarter of the ledgers start in the days around New Year or on the last/first day of a month), against the real bundled cache: each converted field must equal amount ÷ rate(own currency, own year, own month) (GBP unchanged); the report of the foreign ledger must equal the report of the pre-converted GBP ledger; a missing rate that is needed (non-zero amount) must fail naming the first such field's currency and the transaction's month; a zero amount converts to zero whatever its label; the Lean model must agree on every converted value and error. part 3 (CLI): ledgers mixing sterling and foreign amounts per line (incl. all-sterling prices with one foreign fee) through `cgt-tool report --format json` against the library with the bundled table. part 2 (loader): generated rate folders (real XML text, real file names, modification times) loaded with the real loader: overridden keys take the newest file's rate, all other keys keep the bundled rate, files whose period disagrees with their name, with month 13 names, or with a zero/negative rate are rejected; compared with the model's loadCache. Non-trivial = ledgers with two different non-GBP currencies on one line, and folders with ≥ 2 files; distinct by case text.".into();
+    ctx.ev.rule = "part 1 (conversion): generated single-security ledgers with price and fees/tax in independently chosen currencies (GBP, USD, EUR, JPY, CHF, AUD, occasionally XTS, which has no rates, or any other ISO code the currency type knows, with or without bundled rates), months from 2015-01 to the last bundled month and beyond (a quarter of the ledgers start in the days around New Year or on the last/first day of a month), against the real bundled cache: each converted field must equal amount ÷ rate(own currency, own year, own month) (GBP unchanged); the report of the foreign ledger must equal the report of the pre-converted GBP ledger; a missing rate that is needed (non-zero amount) must fail naming the first such field's currency and the transaction's month; a zero amount converts to zero whatever its label; the Lean model must agree on every converted value and error. part 4 (CLI, --fx-folder): a file overriding a bundled month under either accepted file name (YYYY-MM.xml, monthly_xml_YYYY-MM.xml) must be used by `cgt-tool report`, and a file whose Period contradicts its name must be refused, as by the library loader. part 3 (CLI): ledgers mixing sterling and foreign amounts per line (incl. all-sterling prices with one foreign fee) through `cgt-tool report --format json` against the library with the bundled table. part 2 (loader): generated rate folders (real XML text, real file names, modification times) loaded with the real loader: overridden keys take the newest file's rate, all other keys keep the bundled rate, files whose period disagrees with their name, with month 13 names, or with a zero/negative rate are rejected; compared with the model's loadCache. Non-trivial = ledgers with two different non-GBP currencies on one line, and folders with ≥ 2 files; distinct by case text.".into();
     let bundled = cgt_money::load_default_cache().expect("bundled cache");
     // last bundled month for USD
     let mut last = NaiveDate::from_ymd_opt(2015, 1, 1).expect("d");
@@ -197,6 +197,7 @@ pub fn run(ctx: &mut Ctx) {
     }
     loader_part(ctx, &bundled, &mut r);
     cli_part(ctx, &bundled, &mut r);
+    { let mut rf = Rng::new(ctx.seed ^ 0xC08F); cli_folder_part(ctx, &mut rf); }
 }
 
 fn run_impl_wide() -> std::collections::HashMap<u16, Decimal> { crate::run_impl::wide_exemptions().into_iter().collect() }
@@ -265,6 +266,43 @@ fn cli_part(ctx: &mut Ctx, bundled: &FxCache, r: &mut Rng) {
             (Ok(_), false) => ctx.ev.violation("oracle", format!("the CLI fails on a ledger whose rates are all bundled: {}", o.stderr.lines().next().unwrap_or("")), case),
             (Err(e), true) => ctx.ev.violation("oracle", format!("the library refuses ({e}) a ledger the CLI reports"), case),
             (Err(_), false) => {}
+        }
+    }
+}
+
+/// `--fx-folder` through the real binary: a file overriding a bundled month, under either of the two file
+/// names the loader accepts, must be used; a file whose period contradicts its name must be refused
+fn cli_folder_part(ctx: &mut Ctx, r: &mut Rng) {
+    use crate::cli;
+    if !cli::available() { return; }
+    let cfg = run_impl::config_from(&run_impl::embedded_exemptions());
+    for k in 0..ctx.n(6, 60) {
+        ctx.ev.evaluations += 1;
+        ctx.ev.count("cli-fx-folder-cases");
+        let y = 2018 + r.below(6) as i32;
+        let mo = 2 + r.below(9) as u32;
+        let rate = Decimal::new(r.range(15_000, 30_000), 4);
+        let name = if k % 2 == 0 { format!("monthly_xml_{y}-{mo:02}.xml") } else { format!("{y}-{mo:02}.xml") };
+        let mislabelled = k % 3 == 2;
+        let body = xml(if mislabelled { (y, mo + 1) } else { (y, mo) }, &[("USD", rate)]);
+        let text = format!("{y}-01-05 BUY ACME 100 @ 10\n{y}-{mo:02}-15 SELL ACME 40 @ 30 USD FEES 1.50 USD\n");
+        let sc = cli::Scratch::new();
+        sc.write("in.cgt", &text);
+        std::fs::create_dir_all(sc.path("fx")).ok();
+        sc.write(&format!("fx/{name}"), &body);
+        let o = cli::run(&sc, &["report", "in.cgt", "--format", "json", "--fx-folder", "fx"]);
+        let case = format!("# property C08\n# CLI: cgt-tool report in.cgt --format json --fx-folder fx, with fx/{name} giving USD {rate} for {}\n{text}", if mislabelled { "the following month (its Period contradicts its name)" } else { "that month" });
+        let lib = cgt_money::load_cache_with_overrides(vec![RateFile { name: std::path::PathBuf::from(format!("fx/{name}")), modified: None, xml: body.clone() }]);
+        match lib {
+            Err(_) => { if o.code == Some(0) { ctx.ev.violation("oracle", "the CLI accepts an --fx-folder file that the loader refuses (period and name disagree)".into(), case); } }
+            Ok(cache) => {
+                let Ok(txs) = cgt_core::parser::parse_file(&text) else { continue };
+                let Ok(rep) = cgt_core::calculator::calculate(&txs, None, Some(&cache), &cfg) else { continue };
+                if o.code != Some(0) { ctx.ev.violation("oracle", format!("the CLI fails with a valid --fx-folder file: {}", o.stderr.lines().next().unwrap_or("")), case); continue; }
+                let a = serde_json::to_value(&rep).unwrap_or_default();
+                let b: serde_json::Value = serde_json::from_slice(&o.stdout).unwrap_or_default();
+                if a["tax_years"] != b["tax_years"] || a["holdings"] != b["holdings"] { ctx.ev.violation("oracle", "the CLI's report does not use the rate of the --fx-folder file (differs from the library's with that file loaded)".into(), case); }
+            }
         }
     }
 }
